@@ -14,7 +14,7 @@ import itertools
 
 import numpy as np
 
-from ..engine import post, always_raises, check_function, source_info
+from ..engine import post, always_raises, check_function, check_enumeration, source_info
 from ..harness import lp, ro, dro, rsome, subroutines
 from ..spec import views
 
@@ -73,9 +73,7 @@ def partition_functions(nmax):
     out = []
 
     def one(label, f):
-        obs, _ = check_function(label[0], lambda c: {}, lambda ns: f(), [post(label[1], lambda ns, res: res is True)],
-                                mode="D", label=label[2], bounded=True, replay=None)
-        out.extend(obs)
+        out.extend(check_enumeration(label[0], label[1], label[2], f))
 
     for n in range(1, nmax + 1):
         parts = list(set_partitions(n))
@@ -146,14 +144,8 @@ def adapt_sequences(n):
                     if not is_partition(x.event_adapt, n) or sorted(map(sorted, x.event_adapt)) != sorted(map(sorted, want)):
                         return f"sequence {seq}: partition {x.event_adapt}, expected {want}"
             return True
-        obs, _ = check_function("rsome.lp:DecVar.evtadapt", lambda c: {}, lambda ns, run=run: run(),
-                                [post("partition-preserved-new-block-formed-illegal-raises", lambda ns, res: res is True)],
-                                mode="D", label=f"all adapt sequences of depth<=3 on {n} scenarios, labels={'str' if labels else 'int'}",
-                                bounded=True, replay=None)
-        for o in obs:
-            if o["status"] != "discharged":
-                o["reason"] = (o.get("reason") or "") + " | " + str(run())
-        out += obs
+        out += check_enumeration("rsome.lp:DecVar.evtadapt", "partition-preserved-new-block-formed-illegal-raises",
+                                 f"all adapt sequences of depth<=3 on {n} scenarios, labels={'str' if labels else 'int'}", run)
     return out
 
 
@@ -161,8 +153,7 @@ def masks():
     out = []
 
     def one(fname, label, f, clause_name="mask-is-old-or-rows-x-cols"):
-        obs, _ = check_function(fname, lambda c: {}, lambda ns: f(), [post(clause_name, lambda ns, res: res is True)],
-                                mode="D", label=label, bounded=True, replay=None)
+        obs = check_enumeration(fname, clause_name, label, f)
         out.extend(obs)
 
     def dro_masks():
@@ -362,10 +353,7 @@ def operator_labels():
     out = []
 
     def one(label, f):
-        obs, _ = check_function("rsome.lp:<event-wise operators>", lambda c: {}, lambda ns: f(),
-                                [post("result-adaptive-to-the-common-refinement", lambda ns, res: res is True)],
-                                mode="D", label=label, bounded=True, replay=None)
-        out.extend(obs)
+        out.extend(check_enumeration("rsome.lp:<event-wise operators>", "result-adaptive-to-the-common-refinement", label, f))
 
     parts = list(set_partitions(3))
 
